@@ -22,6 +22,7 @@ const repoModule = "github.com/insomniacslk/dhcp"
 type Engine struct {
 	repoDir   string
 	replayBudget bool
+	crossCheck   bool // thorough tier: every proof is re-checked by a second, different solver
 	verifDir  string
 	pkgs      []*packages.Package
 	allPkgs   map[string]*packages.Package
